@@ -1078,7 +1078,9 @@ def common_meta(ctx):
         "`call __fentry__` the parent's return slot is at 8(%rsp) (false for GNU C nested functions, which push "
         "%r10 first: known finding nested-function-mfentry, dedicated witness)",
         "return addresses of the program are never the address of mcount_return/dynamic_return/plthook_return",
-        "no exception/longjmp/signal unwinding (C11), no fork/exec inside the hooks, mtdp->in_exception = false",
+        "no exception/longjmp/signal unwinding inside the window of the shadow-stack theorems (C11 models the per-jmp_buf snapshots; "
+        "here setjmp/longjmp/siglongjmp are monitored end-to-end only: scenarios jmp, sigjmp), no fork/exec inside the hooks, "
+        "mtdp->in_exception = false",
         "the shadow state is per thread (mtd is thread-local) and thread stacks are disjoint",
         "glibc runs key destructors in key order and libmcount's key is older than every key of the program (created in "
         "libmcount's constructor); the harness checks the order of its own key",
